@@ -57,4 +57,19 @@ PROPS["C08"] = {
     "level_note": "Agents havocked; clock monotone; engine and z3 trusted.",
 }
 
+PROPS["C09"] = {
+    "contracts": ["contracts/C09_telomere.py"],
+    "level": "proof",
+    "assumptions": ["max_operations >= 1, error_threshold >= 1; tick cost >= 0; renew amount None or >= 0",
+                    "on_phase_change / on_senescence callbacks neither raise nor re-enter",
+                    "ratios (telomere ratio, error rate) are abstracted to uninterpreted reals: they select warnings and the extra error-rate trigger only",
+                    "reset() is specified as re-construction (TERMINATED is absorbing modulo reset)",
+                    "ghost field true_ticks (unit ticks that returned True since the last renew/reset) carries the Hayflick bound"],
+    "trusted_base": ["threading.Lock/RLock semantics (kind read from __init__ on every run)"],
+    "level_text": "The transition relation of the statement is a per-method postcondition over (old phase, new phase); length in [0,max] and the Hayflick "
+                  "bound (true_ticks + remaining <= max) are object invariants proved inductive over every public method for all configurations; "
+                  "'every call returns' is the lock-reentry obligation on each with-block (non-reentrant lock never re-acquired).",
+    "level_note": "Callbacks assumed non-raising; ratios abstracted; engine and z3 trusted.",
+}
+
 NOT_APPLICABLE = {}
